@@ -35,7 +35,7 @@ pub struct Case03 {
     pub order_seed2: u64,
 }
 
-fn arb_case03() -> BoxedStrategy<Case03> {
+pub fn arb_case03() -> BoxedStrategy<Case03> {
     (vec(any::<u32>(), 0..500), any::<u64>(), any::<u64>()).prop_map(|(tape, a, b)| decode_case03(&tape, a, b)).boxed()
 }
 
